@@ -172,7 +172,7 @@ func (r *run) binopVals(op token.Token, xv, yv Value, xt, yt types.Type, cur *no
 						return Scalar{res}, nil
 					}
 				case token.SHR:
-					if k >= 0 && k < 62 {
+					if k >= 0 && k <= 62 {
 						return Scalar{c.Op("div", nil, a, c.IntC(1<<uint(k)))}, nil
 					}
 				case token.AND:
@@ -1696,6 +1696,10 @@ func (fr *frame) runInvariantLoop(l *loop, spec *contract.LoopSpec, iter []int) 
 			if lenT := r.inductionBound(fr, hdr, l, p); lenT != nil {
 				iv := r.scalarOf(v, p.Type())
 				r.assume(hdr.alive, c.And(r.sle(r.idxConst(0), iv), r.sle(iv, lenT)))
+			} else if inductionGuarded(l, p) {
+				// whatever the bound is, the counter is compared with an int before every increment, so it
+				// cannot wrap: 0 <= i
+				r.assume(hdr.alive, r.sle(r.idxConst(0), r.scalarOf(v, p.Type())))
 			}
 		}
 	}
@@ -1962,6 +1966,9 @@ func (fr *frame) loopEnv(l *loop, at *node, pkg *pkgRef) *env {
 			} else if p := fr.r.E.renamedPhi(fr.fn, l, name); p != nil {
 				// a renamed loop variable (loopnames.go)
 				if x := at.lookup(p); x != nil {
+					if r.assumedContracts != nil {
+						r.assumedContracts[fmt.Sprintf("%s loop %d: the contract's name %q is taken to be the loop variable %q (same position and type in /verif/loopnames.json; the invariants are checked under this reading)", fr.fn.Name(), l.ordinal, name, p.Comment)] = true
+					}
 					return TV{V: x, T: p.Type()}, true
 				}
 			}
@@ -2062,6 +2069,23 @@ func (r *run) inductionBound(fr *frame, hdr *node, l *loop, p *ssa.Phi) *smt.Ter
 		return s.T
 	}
 	return nil
+}
+
+// inductionGuarded: the head of l ends in `if p < y` (y an int) whose false branch leaves the loop.
+func inductionGuarded(l *loop, p *ssa.Phi) bool {
+	if len(l.header.Instrs) == 0 || len(l.header.Succs) != 2 || !l.blocks[l.header.Succs[0]] || l.blocks[l.header.Succs[1]] {
+		return false
+	}
+	br, ok := l.header.Instrs[len(l.header.Instrs)-1].(*ssa.If)
+	if !ok {
+		return false
+	}
+	cond, ok := br.Cond.(*ssa.BinOp)
+	if !ok || cond.Op != token.LSS || cond.X != ssa.Value(p) {
+		return false
+	}
+	bt, isBasic := cond.Y.Type().(*types.Basic)
+	return isBasic && bt.Kind() == types.Int
 }
 
 func isIntConst(v ssa.Value, want int64) bool {
@@ -2204,10 +2228,20 @@ func (e *Engine) namedValueAt(fn *ssa.Function, name string, b *ssa.BasicBlock) 
 	// cell, not by the value it was initialised with: prefer a dominating Alloc of that name
 	if best != nil {
 		if _, isAlloc := best.(*ssa.Alloc); !isAlloc {
+			// (the innermost one: two loops may each declare a variable of that name, and the cell of a
+			// `range` variable is allocated in front of its loop, where it dominates the later loop too)
+			var bestA *ssa.Alloc
+			bd, bi := -1, -1
 			for _, v := range names[name] {
 				if a, ok := v.(*ssa.Alloc); ok && a.Block() != nil && (a.Block() == b || a.Block().Dominates(b)) {
-					return a
+					d, idx := domDepth(a.Block()), instrIndex(a)
+					if d > bd || d == bd && idx > bi {
+						bestA, bd, bi = a, d, idx
+					}
 				}
+			}
+			if bestA != nil {
+				return bestA
 			}
 		}
 	}
